@@ -69,19 +69,13 @@ func sortedKeys(m map[string]string) []string {
 }
 
 func TestProbe(t *testing.T) {
-	g := mkGraph(3, [2]int{0, 1}, [2]int{1, 2}, [2]int{2, 1})
-	probe(t, newSpec(g, []Kind{KLocal, KNamed, KRemote}, true), Target{"all", 0}, Target{"dir", 0})
-	probe(t, newSpec(g, []Kind{KLocal, KBoth, KRemote}, true), Target{"all", 0}, Target{"file", 0}, Target{"path", 1})
-	probe(t, newSpec(g, []Kind{KLocal, KBoth, KRemote}, false), Target{"all", 0}, Target{"file", 0}, Target{"path", 1})
-	s := newSpec(mkGraph(3, [2]int{0, 2}, [2]int{1, 2}), []Kind{KLocal, KNamed, KRemote}, false)
-	s.TwoCommit = 2
-	probe(t, s, Target{"all", 0})
-	s.TCOrder = 1
-	probe(t, s, Target{"all", 0})
-	s = newSpec(mkGraph(2, [2]int{0, 1}), []Kind{KLocal, KNamed}, true)
-	s.DupFrom, s.DupInto = 1, 0
-	probe(t, s, Target{"all", 0}, Target{"dir", 1})
-	s = newSpec(mkGraph(2, [2]int{0, 1}), []Kind{KLocal, KNamed}, true)
-	s.MissingIn = 1
-	probe(t, s, Target{"all", 0}, Target{"dir", 0})
+	g := mkGraph(3, [2]int{0, 1}, [2]int{1, 2}, [2]int{0, 2})
+	for _, l := range []string{"incl", "excl"} {
+		s := newSpec(g, []Kind{KLocal, KLocal, KNamed}, true)
+		s.Layout = l
+		probe(t, s, Target{"all", 0}, Target{"dir", 0}, Target{"file", 0}, Target{"path", 1})
+	}
+	s := newSpec(g, []Kind{KLocal, KLocal, KNamed}, false)
+	s.Layout = "roots"
+	probe(t, s, Target{"all", 0}, Target{"dir", 0}, Target{"file", 0}, Target{"path", 1})
 }
